@@ -93,7 +93,7 @@ impl Prop for C09 {
         "C09"
     }
     fn rule(&self) -> String {
-        "(a) wild programs: 2-15 statements over six names shared by variables, functions and parameters; three quarters type-directed (the model is consulted after every statement and an operation fitting the \
+        "(a0) one tenth: programs from the structured generators of the other checks (mutation histories, array histories, functions, control flow, I/O). (a) wild programs: 2-15 statements over six names shared by variables, functions and parameters; three quarters type-directed (the model is consulted after every statement and an operation fitting the \
          variable's current kind is chosen: arithmetic with boundary numbers, build/knock, turn, cast to character / with boundary radices, cut, join, indexing with boundary indices 1e30, inf, NaN, -1, 0.5, 2^32, 2^64, \
          array as key and value, rock/roll incl. degenerate poetic literals, function definitions with duplicate/self-named parameters, calls with right and wrong arity), one quarter fully random grammar statements; \
          degenerate poetic literals (orphan suffixes, dots only, 60 words), pronouns without referent, break/continue/return at top level and in several top-level blocks, statements after the failing one; stdin incl. invalid UTF-8. \
@@ -122,6 +122,27 @@ impl Prop for C09 {
             let b = super::textgen::snippet(t);
             let src = soup::mutate(a, t, b);
             return Case::Text { src, stdin: b"1\nabc\n\n".to_vec() };
+        }
+        if !text_leg && t.chance(1, 8) {
+            // the structured generators of the other checks (histories of mutations, arrays, functions, control flow, I/O):
+            // mostly well-typed programs that run long and deep, where a crash needs a history rather than an odd operand
+            let (prog, stdin): (Program, Vec<u8>) = match t.pick(5) {
+                0 => {
+                    let mut g = engine_core::gen::mutate::MutGen::new(t);
+                    let p = g.program();
+                    (p, g.stdin.clone().into_bytes())
+                }
+                1 => (engine_core::gen::arrays::ArrGen::new(t).program(), vec![]),
+                2 => (engine_core::gen::funcs::FnGen::new(t).program(), vec![]),
+                3 => (engine_core::gen::flow::FlowGen::new(t).program(), vec![]),
+                _ => {
+                    let mut g = engine_core::gen::io::IoGen::new(t);
+                    let p = g.program();
+                    let i = g.stdin();
+                    (p, i.into_bytes())
+                }
+            };
+            return Case::Wild { prog, stdin, spelling };
         }
         let w = gen_wild(t, ORPHAN_SUFFIX);
         if text_leg {
